@@ -235,6 +235,17 @@ def reuse_and_refusal_stream(rep, ci, rng, count):
                 fail("the empty sum is not a unit that can be reused: after `zero + f` it has %d term(s)" % len(zero.terms),
                      {"class": mod.__name__})
                 continue
+            for name, one in (("sum([f])", sum([f])), ("0 + f", 0 + f),
+                              ("reduce(add, [f], 0)", __import__("functools").reduce(lambda u, v: u + v, [f], 0))):
+                if not isinstance(one, cat.Sum) or len(one.terms) != 1 or one != monoidal.Sum([f]) \
+                        or hash(one) != hash(monoidal.Sum([f])) or one == f:
+                    fail("%s is %r: not the one-term formal sum Sum([f]) (which differs from the diagram f)" % (name, one),
+                         {"class": mod.__name__})
+                    break
+            else:
+                one = None
+            if one is not None:
+                continue
             d1 = s[::-1]
             if snapshot(s) != snap or d1[::-1] != s:
                 fail("dagger of a sum changed the sum or is not involutive", {"class": mod.__name__})
